@@ -23,10 +23,12 @@ fn main() {
         "C01" | "C02" => props::c01::run(id, tier),
         "C03" => props::c03::run(tier),
         "C04" => props::c04::run(tier),
+        "C05" => props::c05::run(tier),
         "C07" => props::c07::run(tier),
         "C08" => props::c08::run(tier),
         "C09" => props::c09::run(tier),
         "C10" => props::c10::run(tier),
+        "C11" => props::c11::run(tier),
         "C14" => props::c14::run(tier),
         "C15" => props::c15::run(tier),
         "C19" => props::c19::run(tier),
